@@ -309,12 +309,12 @@ func runHistory(kind string, t gwc.Target, units [][]byte) (model.Obs, sess.Resu
 	r := sess.Run(kind, t, units)
 	var obs model.Obs
 	if r.OpenStatus != 0 {
-		w.observe(s)
+		w.observe(s, 0)
 		return obs, r, viol("open/"+fmt.Sprint(r.OpenStatus), "transport did not open: %d %s", r.OpenStatus, r.OpenErr)
 	}
-	obs.Accepts, obs.Bytes = w.observe(s)
-	obs.Ended = r.Ended
 	resps, err := sess.Decode(r.Pkts)
+	obs.Accepts, obs.Bytes = w.observe(s, channelSuccesses(resps))
+	obs.Ended = r.Ended
 	if err != nil {
 		return obs, r, viol("decode", "%v", err)
 	}
@@ -326,6 +326,17 @@ func runHistory(kind string, t gwc.Target, units [][]byte) (model.Obs, sess.Resu
 	}
 	obs.Resps = resps
 	return obs, r, nil
+}
+
+// channelSuccesses counts the channel responses reporting success.
+func channelSuccesses(resps []tsgu.Resp) int {
+	n := 0
+	for _, r := range resps {
+		if r.Type == tsgu.PktChannelResponse && r.Status == 0 {
+			n++
+		}
+	}
+	return n
 }
 
 func userHeader(o gwOpts, user string) [][2]string {
